@@ -242,12 +242,12 @@ func init() {
 				},
 				Run: func(i int64, r *vf.Rec) {
 					c := caseOf(i)
-					routes := []string{"one-do-form", "form-by-form-REPL", "load-file", "leading-blank-lines", "forms-read-one-by-one", "same-text-under-a-second-module-name"}
+					routes := []string{"one-do-form", "form-by-form-REPL", "load-file", "leading-blank-lines", "forms-read-one-by-one", "same-text-under-a-second-module-name", "module-named-by-header-line"}
 					for _, route := range routes {
 						if route == "load-file" && c.wrap > nW {
 							continue // load-file route: wrapper paths of length <= 1
 						}
-						p := build(c.fault, c.wrap, dels[c.del], fillerChoicesOf()[c.fc], route == "one-do-form" || route == "leading-blank-lines" || route == "same-text-under-a-second-module-name")
+						p := build(c.fault, c.wrap, dels[c.del], fillerChoicesOf()[c.fc], route == "one-do-form" || route == "leading-blank-lines" || route == "same-text-under-a-second-module-name" || route == "module-named-by-header-line")
 						if route == "leading-blank-lines" {
 							// the module text itself starts with blank lines and a comment
 							p.text = "\n\n; header\n" + p.text
@@ -279,6 +279,18 @@ func init() {
 									break
 								}
 							}
+						case "module-named-by-header-line":
+							// no cursor: the module is named by a ';; $MODULE name' first line (rows count from the
+							// line after it), and the module text begins with two blank lines
+							module = "named/by header.lisp"
+							var ast types.MalType
+							ast, err = lisp.READ(";; $MODULE "+module+"\n\n\n"+p.text, nil, nil)
+							if err != nil {
+								r.ViolationCase("harness: generated program does not read", p.text, err.Error())
+								return
+							}
+							p.faultRow, p.formFrom, p.formTo = p.faultRow+2, p.formFrom+2, p.formTo+2
+							_, err, pn = lx.Eval(context.Background(), ast, scope)
 						case "same-text-under-a-second-module-name":
 							// the identical text was read before under the name "mod" (route one-do-form): read again
 							// under another name, every position must name the new module
@@ -357,7 +369,7 @@ func init() {
 				},
 			}
 		}
-		common := fmt.Sprintf("%d faults (undefined symbol, throw, failing builtin, failed assert, call of a non-function; single- and multi-line) x every wrapper path of length 0..2 over %d wrappers (let, if-then, if-else, do, vector literal, map value, cond, ->, and, or, fn called in place, call argument, try/finally) x fillers before (0..1 quick / 0..2 thorough) and after (0..1) from %d multi-line forms/comments/blank lines/raw strings; routes: one do form, same-line do, load-file from a file (wrapper paths of length <=1), after leading blank lines, every top-level form read and evaluated on its own, the same text read again under a second module name", len(c17Faults), nW, len(c17Fillers))
+		common := fmt.Sprintf("%d faults (undefined symbol, throw, failing builtin, failed assert, call of a non-function; single- and multi-line) x every wrapper path of length 0..2 over %d wrappers (let, if-then, if-else, do, vector literal, map value, cond, ->, and, or, fn called in place, call argument, try/finally) x fillers before (0..1 quick / 0..2 thorough) and after (0..1) from %d multi-line forms/comments/blank lines/raw strings; routes: one do form, same-line do, load-file from a file (wrapper paths of length <=1), after leading blank lines, every top-level form read and evaluated on its own, the same text read again under a second module name, the module named by a ';; $MODULE' header line followed by blank lines (no cursor)", len(c17Faults), nW, len(c17Fillers))
 		return &vf.Check{
 			ID: "C17", Level: "model_checking",
 			Rule:        "every program of the bounded layout space (the generator knows the row range of every top-level form and the row where the planted fault starts) is read under a module name and evaluated; when the error carries a position it must name the module, lie within the rows of the top-level form that textually contains the fault and cover the fault's first row; non-trivial = the error carried a position",
